@@ -609,6 +609,9 @@ func main() {
 	addF(fcaseJ{sse, []string{"data: 1\r\n\r\n"}, true})
 	addF(fcaseJ{sse, []string{"data: 1\r\n\r", "\n"}, true})
 	addF(fcaseJ{sse, []string{"data: 1\n", "\n"}, true})
+	addF(fcaseJ{sse, []string{"data: 1\n\rdata: 2"}, true}) // mixed line ends: LF then a bare CR
+	addF(fcaseJ{sse, []string{"data: 1\r\n\rx"}, true})
+	addF(fcaseJ{sse, []string{"data: 1\n", "\r", "x"}, true})
 	// production pattern lists on event-stream-like and chunk-like write sequences
 	evAlpha := []string{"\n", "\r", "\r\n", "d", "data: x", "\n\n", "\r\r", "\r\n\r\n", ":", "5\r\n", "0\r\n"}
 	nRand := 800
